@@ -463,6 +463,11 @@ func (gen *generator) getIndex(index ast.Constant) gep.Index {
 		}
 	case *ast.PtrToIntExpr:
 		return gep.Index{HasVal: false}
+	case *ast.GlobalIdent:
+		// The address of a global has no integer value known here; the operand
+		// itself is resolved (and an undefined name reported) when the indices
+		// are translated.
+		return gep.Index{HasVal: false}
 	case *ast.UndefConst:
 		return gep.Index{HasVal: false}
 	case *ast.PoisonConst:
